@@ -1688,7 +1688,7 @@ class FuncFind(ValueFunc):
                 env = environment.newEnv()
             item = args.get("part")
             lst = obj.value
-            for idx in range(len(lst)):
+            for idx in range(max(start, 0), len(lst)):
                 elem = lst[idx]
                 if key:
                     elem = key.execute(
